@@ -3,7 +3,7 @@
 # checks that the named property's check gives the expected verdict.
 #   selftest/must_fail/<Cxx>-<name>.patch  -> check must exit 1 with a VIOLATION line
 #   selftest/must_pass/<Cxx>-<name>.patch  -> check must exit 0
-# Usage: selftest/run.sh [Cxx]   (filter by property id)
+# Usage: selftest/run.sh [Cxx|Cxx-name-prefix]   (filter by property id or patch name prefix)
 DIR=$(cd "$(dirname "$0")/.." && pwd)
 FILTER="$1"
 SCR=/dev/shm/verif-selftest-$$
@@ -13,7 +13,7 @@ for kind in must_fail must_pass; do
     [ -f "$p" ] || continue
     base=$(basename "$p" .patch)
     id=${base%%-*}
-    [ -n "$FILTER" ] && [ "$FILTER" != "$id" ] && continue
+    if [ -n "$FILTER" ] && [ "$FILTER" != "$id" ]; then case "$base" in "$FILTER"*) ;; *) continue ;; esac; fi
     rm -rf "$SCR"; mkdir -p "$SCR"
     rsync -a --exclude .git /repo/ "$SCR/"
     if ! (cd "$SCR" && patch -p1 -s < "$p"); then echo "SELFTEST $base: patch does not apply"; fail=1; rm -rf "$SCR"; continue; fi
